@@ -195,6 +195,11 @@ def make(case, rng, route):
     raise ValueError(route)
 
 
+def O_rel(x):
+    from .. import objects as O
+    return O.rel_us(x)
+
+
 def run(chk):
     import stix2
     quick = chk.tier == "quick"
@@ -375,6 +380,47 @@ def run(chk):
                 chk.violation({"entry": "v21.%s" % cls.__name__, "clause": b, "case": "template=%s mutation=%d" % (tname, mi)},
                               {"template": tname, "mutation": mi, "id_first": id1, "id_first_now": first.id, "id_reparsed": reparsed.id, "id_second": second.id, "id_fresh": fresh.id}, "S3c")
     chk.stages["S3c_templates_reused_by_the_caller"] = {"cases": ntmpl}
+    # ---- S3d: a contributing timestamp handed over in every form a caller has it in -- text, datetime, the timestamp VALUE of another object's property (which carries that
+    # property's precision rules: millisecond/min of a 2.1 object, millisecond/exact of a 2.0 one, second of a 2.0 observed-data) -- is one instant: one identifier
+    nforms = 0
+    for frac in ("", ".5", ".12", ".123", ".1234", ".123456", ".000", ".120000"):
+        text = "2020-03-04T05:06:07%sZ" % frac
+        us = int((frac[1:] or "0").ljust(6, "0"))
+        plain_dt = dt.datetime(2020, 3, 4, 5, 6, 7, us, tzinfo=dt.timezone.utc)
+        forms = [("text", text), ("datetime", plain_dt)]
+        for ftag, build in (("created_of_2.1_object", lambda: stix2.v21.Identity(name="d", created=text, modified="2021-01-01T00:00:00Z").created),
+                           ("valid_from_of_2.1_indicator", lambda: stix2.v21.Indicator(pattern="[file:name = 'a']", pattern_type="stix", valid_from=text).valid_from),
+                           ("first_seen_of_2.0_campaign", lambda: stix2.v20.Campaign(name="c", first_seen=text).first_seen),
+                           ("parse_into_datetime_second", lambda: stix2.utils.parse_into_datetime(text, precision="second")),
+                           ("parse_into_datetime_millisecond_min", lambda: stix2.utils.parse_into_datetime(text, precision="millisecond", precision_constraint="min"))):
+            try:
+                val = build()
+            except Exception:  # noqa
+                continue
+            if O_rel(val) == O_rel(plain_dt):        # only donors that still denote the same instant (a truncating property gives another instant: another case)
+                forms.append((ftag, val))
+        for prop in ("start", "end"):
+            ids = {}
+            for ftag, val in forms:
+                kw = {"protocols": ["tcp"], "src_ref": IP % 1, "is_active": False, "start": "2019-01-01T00:00:00Z"}
+                kw[prop] = val
+                if prop == "start":
+                    kw.pop("is_active")
+                try:
+                    o = stix2.v21.NetworkTraffic(**kw)
+                    d1 = json.loads(o.serialize())
+                    d1.pop("id")
+                    ids[ftag] = (o.id, stix2.parse(d1, version="2.1").id)
+                except Exception as e:  # noqa
+                    ids[ftag] = ("refused:" + type(e).__name__, "")
+                nforms += 1
+            chk.case(["timestamp_forms", prop, frac, len(forms)])
+            ref_id = ids["text"][0]
+            for ftag, (i1, i2) in sorted(ids.items()):
+                if i1 != ref_id or (i2 and i2 != i1):
+                    chk.violation({"entry": "v21.NetworkTraffic", "clause": "same_instant_in_another_form_gives_another_id" if i1 != ref_id else "id_not_that_of_the_content_the_object_holds",
+                                   "case": "prop=%s form=%s digits=%d" % (prop, ftag, len(frac) - 1 if frac else 0)}, {"prop": prop, "text": text, "ids": ids}, "S3d")
+    chk.stages["S3d_timestamp_forms"] = {"constructions": nforms}
     # across processes (hash randomisation varied)
     prog = ("import sys, json; sys.path.insert(0, %r); import stix2.v21 as v\n"
             "print(json.dumps([v.File(name='n', hashes={'SHA-256': %r, 'MD5': %r}).id, v.NetworkTraffic(protocols=['tcp'], src_ref=%r, extensions={'http-request-ext': {'request_method': 'get', 'request_value': '/', 'request_header': {'b': '1', 'a': '2'}}}).id, v.Software(name='n', vendor='v').id]))"
